@@ -111,6 +111,13 @@ def check_object(spec):
             e = raises(setattr, o, attr, "zz")
             if e is None:
                 fails.append((f"instance-is-mutable/{cls}.{attr}", f"{where}: assignment to {attr} succeeded"))
+        # a copy with an updated field prints its own CURIE (also after the original's was read)
+        _ = o.curie
+        for field_, val in (("identifier", "zz9"), ("prefix", "pp9")):
+            cp = o.model_copy(update={field_: val})
+            want_c = (val if field_ == "prefix" else p) + ":" + (val if field_ == "identifier" else i)
+            if cp.curie != want_c or cp.pair != ((val if field_ == "prefix" else p), (val if field_ == "identifier" else i)):
+                fails.append((f"copy-with-update-prints-stale-curie/{cls}", f"{where}.model_copy(update={{{field_!r}: {val!r}}}).curie = {cp.curie!r}"))
         # from_reference keeps the pair
         try:
             src = NamableReference(prefix=p, identifier=i, name=n if n is not None else "N")
